@@ -610,17 +610,20 @@ def r5_capacity(ctx: Context, rule: str = "C10.R5") -> None:
         apps = [c for c in calls_in(pv, "append")]
         ctx.floor(rule, f"append in get_partition_variable ({rel})", len(apps), 1)
         an = g.node_of(apps[0])
-        ctl = [lin.formula(t.ast, env=_pv_env(pv)) for t in g.nodes if t.kind == "test" and g.edge_dominates(t, "T", an)]
-        cond = ("and", ctl) if ctl else ("const", True)
-        # "not weaker": whenever start <= t < start + runtime on this worker for a live cell, the cell is included
-        need = lin.formula(ast.parse("worker_id == worker_index and start_time <= time and start_time + strategy.runtime > time", mode="eval").body)
-        # the included set must contain `need` (ignoring the variable-kind conjunct): cond without the kind test is implied by need
-        ctl_wo_kind = [f for f in _split_and(cond) if "type(variable)" not in lin.show(f) and "variable ==" not in lin.show(f) and "Eq variable" not in lin.show(f)
-                       and "variable" not in lin.show(f)]
-        inc = ("and", ctl_wo_kind) if ctl_wo_kind else ("const", True)
-        ok = lin.entails(need, inc)
-        ctx.check(ok, rule, f"{rel}::TaskOptimizerVariables.get_partition_variable|window covers start <= t < start + runtime", loc(apps[0]),
-                  lin.show(inc)[:120], f"a cell that occupies the worker at time t can be left out of the capacity constraint: included iff {lin.show(inc)[:160]}")
+        cases = window_cases(pv)
+        cond = ("const", True)
+        for case, need_src in (("new", "worker_id == worker_index and start_time <= time and start_time + strategy.runtime > time"),
+                               ("placed", "worker_id == worker_index and start_time <= time and start_time + self._task.remaining_time > time")):
+            ctl = [lin.formula(t.ast, env=cases[case]) for t in g.nodes if t.kind == "test" and g.edge_dominates(t, "T", an)]
+            cond = ("and", ctl) if ctl else ("const", True)
+            # "not weaker": whenever the task occupies the worker at time t, its cell is included
+            need = lin.formula(ast.parse(need_src, mode="eval").body)
+            ctl_wo_kind = [f for f in _split_and(cond) if "variable" not in lin.show(f)]
+            inc = ("and", ctl_wo_kind) if ctl_wo_kind else ("const", True)
+            ok = lin.entails(need, inc)
+            what = "start <= t < start + runtime" if case == "new" else "start <= t < start + remaining time (running task)"
+            ctx.check(ok, rule, f"{rel}::TaskOptimizerVariables.get_partition_variable|window covers {what}", loc(apps[0]),
+                      lin.show(inc)[:120], f"a cell that occupies the worker at time t can be left out of the capacity constraint: included iff {lin.show(inc)[:160]}")
         kind = [f for f in _split_and(cond) if "variable" in lin.show(f)]
         okk = False
         if kind:
@@ -653,8 +656,31 @@ def r5_capacity(ctx: Context, rule: str = "C10.R5") -> None:
                   "cleared worker", "compatibility is computed on the occupied worker (tasks that fit later are excluded) or not at all")
 
 
+def window_cases(pv: ast.FunctionDef) -> Dict[str, Dict[str, lin.Lin]]:
+    """Environments for the locals of get_partition_variable, one per case of `previously placed`.
+
+    `occupancy_time = A if self._previously_placed else B` yields {'placed': {occupancy_time: A}, 'new': {occupancy_time: B}}."""
+    cases: Dict[str, Dict[str, lin.Lin]] = {"placed": {}, "new": {}}
+    for a in ast.walk(pv):
+        if isinstance(a, ast.Assign) and len(a.targets) == 1 and isinstance(a.targets[0], ast.Name):
+            v = a.value
+            if isinstance(v, ast.IfExp) and "previously_placed" in norm(v.test):
+                pos = not (isinstance(v.test, ast.UnaryOp) and isinstance(v.test.op, ast.Not))
+                yes, no = (v.body, v.orelse) if pos else (v.orelse, v.body)
+                cases["placed"][a.targets[0].id] = lin.lin_of(yes)
+                cases["new"][a.targets[0].id] = lin.lin_of(no)
+            elif not isinstance(v, (ast.Call, ast.IfExp)) or call_name(v) not in ("defaultdict", "dict", "list"):
+                try:
+                    l = lin.lin_of(v)
+                    cases["placed"].setdefault(a.targets[0].id, l)
+                    cases["new"].setdefault(a.targets[0].id, l)
+                except Exception:
+                    pass
+    return cases
+
+
 def _pv_env(fn: ast.FunctionDef) -> Dict[str, lin.Lin]:
-    return {}
+    return window_cases(fn)["new"]
 
 
 def _split_and(f) -> List:
